@@ -67,6 +67,9 @@ def mk_traverser(I, st, dd, x, edge):
             return st.id_of(x)
         if kind == "opt_edge":
             return none() if edge is None else some(edge)
+        if kind == "edge":
+            tnew = [k for k in I.fns if k.endswith("::new") and k.startswith(itertables.TRV + "Traverse<")]
+            return VEnum(itertables.EDGE, itertables.closing_variant(I, tnew[0]), (("0", st.id_of(x)),))
         raise Undecided("unexpected leaf %s in Traverse" % kind)
     return itertables.build(I, dd["trav_ty"], leaf)
 
@@ -77,7 +80,7 @@ def trav_state(I, st, dd, v):
         v = I.force(st, I.load(st, v.root, v.path))
     view = __import__("vlib.absint.spec", fromlist=["View"]).View(I, st)
     roles = itertables.role_map(I, "Traverse", dd["trav_ty"], dd["trav_next"])
-    return {roles.get(tuple(p), "/".join(p)): itertables.dec(view, val) for p, val in itertables.leaves(v)}
+    return itertables.state_dict(view, lambda p: roles.get(tuple(p), "/".join(p)), v)
 
 
 def ret_node(I, st, v):
